@@ -84,6 +84,18 @@ theorem dot_eq_ip (u v : Vector K n) : dot u v = ip (toFn u) (toFn v) := by
   unfold dot ip
   exact foldl_eq_sum n fun i => u[i] * v[i]
 
+theorem toFn_zeroVec : toFn (zeroVec K n) = 0 := by
+  unfold zeroVec; rw [toFn_ofFn]; rfl
+
+theorem dot_zeroVec (r : Vector K n) : dot r (zeroVec K n) = 0 := by
+  rw [dot_eq_ip, toFn_zeroVec]
+  exact ip_zero_right _
+
+theorem matVec_zeroVec {m : ℕ} (B : Vector (Vector K m) n) : matVec B (zeroVec K m) = zeroVec K n := by
+  unfold matVec
+  simp only [dot_zeroVec]
+  rfl
+
 end Ring
 
 /-! ## Gram–Schmidt on functions -/
